@@ -6,7 +6,7 @@ HERE = os.path.dirname(os.path.abspath(__file__))
 BASELINE_OFF = "cd /repo && /venv/bin/python -m pytest -ra -q -p no:cacheprovider --timeout=900 --continue-on-collection-errors"
 
 CLAIMED = {
- "C05": dict(ref="4.1", technique="deterministic simulation: seeded insert/update/remove histories with rejected-operation faults, checked online against a sequential priority-queue reference model; plus recorded heap traffic of real fits",
+ "C05": dict(ref="4.1", technique="deterministic simulation: seeded insert/update/remove histories (one heap or several interleaved) with rejected-operation faults (remove on empty, insert on full, refused policy assignment), checked online against a sequential priority-queue reference model; plus recorded heap traffic of real fits",
    text="Seeded exploration of operation histories (synthetic and recorded from real model fits) on the real Heap, each step checked against a dict-based priority-queue model, with drain and exactly-once history check; ddmin-minimised replay files. Sampling, not proof: the right level for a history-quantified data-structure property in a pure-Python library.",
    note="Trusts the reference model (a dict of queued ids) and the stated quantifier (ids < capacity, each id inserted once, improving updates, no NaN keys). Internals (p/pos/color) are never part of a verdict."),
 }
